@@ -367,6 +367,9 @@ func c03Case(c *vlib.Case, run *vlib.Run, env *pmmvEnv, cfg *pmmvConfig, mode st
 		}
 		m.set(pr, off, pmmvEarly)
 	}
+	if len(env.maps) >= 2 {
+		run.Count("configs_with_2_or_more_early_frames", 1)
+	}
 	usable := m.FreeCount()
 	if !s.acct("after Init") {
 		return s, "acct"
@@ -407,8 +410,8 @@ func c03Case(c *vlib.Case, run *vlib.Run, env *pmmvEnv, cfg *pmmvConfig, mode st
 			fr := s.held[i]
 			s.freeHeld(i, "free of allocated frame")
 			freed[fr] = true
-			if r.Intn(3) == 0 {
-				s.hostile(fr, "twice-freed")
+			if r.Intn(3) == 0 && (s.m.RAM < 4096 || r.Intn(32) == 0) {
+				s.hostile(fr, "twice-freed") // (a snapshot costs O(frames): thinned out for big maps)
 			}
 		}
 		if s.dead {
@@ -491,7 +494,7 @@ func TestVerifC03(t *testing.T) {
 		}
 	}
 
-	run.Cases(run.N(400, 12000), func(c *vlib.Case) {
+	run.Cases(run.N(1000, 50000), func(c *vlib.Case) {
 		r := c.R.Fork(0xC03)
 		mode := "normal"
 		switch k := r.Intn(20); {
@@ -506,7 +509,8 @@ func TestVerifC03(t *testing.T) {
 		if r.Intn(6) == 0 {
 			mf = maxFrames
 		}
-		cfg := pmmvGenConfig(r.Fork(1), pmmvGenOpts{MaxFrames: mf, ForceBoundary: r.Intn(2) == 0, Huge: mode == "huge"})
+		big := r.Intn(25) == 0
+		cfg := pmmvGenConfig(r.Fork(1), pmmvGenOpts{MaxFrames: mf, Big: big, ForceBoundary: r.Intn(2) == 0, Huge: mode == "huge"})
 		one(c, cfg, mode, r.Fork(2))
 	})
 
